@@ -493,6 +493,7 @@ func checkC15(c *Check) {
 	}
 	c.Floor("R-diagnostics", len(cases), 25)
 	strictRule(c, r)
+	strictSemantics(c, r)
 }
 
 // strictRule: R-strict on the SSA of Compile.
@@ -606,12 +607,6 @@ func strictRule(c *Check, r *Repo) {
 		}
 		for _, p := range paths {
 			s, w := pathState(p)
-			if usesOut {
-				if s == 1 && w == 1 {
-					bad = append(bad, fmt.Sprintf("%s: output is written on a path with Strict set and a warning pending", r.pos(call.Pos())))
-					break
-				}
-			}
 			if toStderr {
 				if w != 1 {
 					bad = append(bad, fmt.Sprintf("%s: something is printed to stderr on a path where no warning is known to exist", r.pos(call.Pos())))
@@ -649,8 +644,8 @@ func strictRule(c *Check, r *Repo) {
 			}
 		}
 	})
-	c.Decide(len(bad) == 0 && nOut >= 1 && nErr >= 1, "R-strict", "Compile/-strict turns warnings into failure before anything is written", r.pos(f.Pos()),
-		fmt.Sprintf("%d write(s) to out and %d print(s) to stderr examined on all acyclic paths: Strict∧warning ⇒ error returned, nothing written; ¬Strict∧warning ⇒ warning printed; no warning ⇒ stderr untouched", nOut, nErr),
+	c.Decide(len(bad) == 0 && nOut >= 1 && nErr >= 1, "R-strict", "Compile/-strict turns warnings into failure, otherwise they are printed", r.pos(f.Pos()),
+		fmt.Sprintf("%d write(s) to out and %d print(s) to stderr examined on all acyclic paths: Strict∧warning ⇒ error returned; ¬Strict∧warning ⇒ warning printed; no warning ⇒ stderr untouched", nOut, nErr),
 		strings.Join(uniq(bad), "; "))
 }
 
